@@ -28,7 +28,7 @@ NATIVE['n_c14_mutations'] = dict(
     host='crates/cairo-lang-sierra-to-casm/src/compiler.rs',
     harness='native/cairo-lang-sierra-to-casm/n_c14_mutations.rs',
     props={'C14'},
-    bound='all single structured mutations (see unit) of 5 small valid programs in quick, 13 in thorough',
+    bound='all single structured mutations (see unit) of 5 small valid programs in quick, 13 in thorough; a fixed sample of 12 (120) mutants of each of the 382 e2e programs; both metadata solver pairs',
     functions=[('crates/cairo-lang-sierra-to-casm/src/compiler.rs', None, 'compile')],
 )
 NATIVE['n_c14_type_sizes'] = dict(
